@@ -12,6 +12,7 @@ PROTOCOLS = {
     "http": (False, "http"),
     "head": (False, "http"),
     "wap": (False, "wap"),
+    "wap-auto": (False, "wap"),         # detected through Accept + x-wap-profile headers
     "spartan": (False, "spartan"),
     "gemini": (True, "gemini"),
     "https": (True, "http"),
@@ -49,6 +50,12 @@ def make_request(proto, selector, search=None):
         if search is not None:
             path += b"?searchrequest=" + urllib.parse.quote_plus(search).encode()
         return method + b" " + path + b" HTTP/1.0\r\nHost: sim.example.org\r\n\r\n", tls
+    if proto == "wap-auto":
+        path = quote(selector or "/").encode()
+        if search is not None:
+            path += b"?searchrequest=" + urllib.parse.quote_plus(search).encode()
+        return (b"GET " + path + b" HTTP/1.0\r\nHost: sim.example.org\r\n"
+                b"Accept: text/html, text/vnd.wap.wml\r\nX-Wap-Profile: \"http://wap.example.org/p.xml\"\r\n\r\n"), tls
     if fam == "wap":
         path = b"/wap" + quote(selector or "/").encode()
         if search is not None:
